@@ -238,8 +238,9 @@ func (rc *runCtx) setup(cfg absCfg) (func(), error) {
 	}
 	ctx, cancel := context.WithCancel(context.Background())
 	var hooked []string
+	shared := make(chan procEv, 256) // one queue per run: requests are sequential, and a channel may report under another name
 	for _, n := range append([]string{rc.esc}, rc.names["A"], rc.names["B"], rc.names["U"]) {
-		c := make(chan procEv, 256)
+		c := shared
 		rc.proc[n] = c
 		procChans.Store(n, c)
 		cnt := new(int32)
